@@ -1,5 +1,5 @@
 """C10  One-shot results depend only on the arguments, never on earlier calls."""
-import itertools
+import itertools, json, os, sys
 from vmon.core import call, is_exc, Exc, CaseTimeout
 from vmon import sanitize
 
@@ -140,6 +140,39 @@ def kinds():
     IT = [(0, 3), (1, 5), (2, 7), (3, 9)]
     K['knapsack (functions)'] = (lambda: KS, [('exactsum(12)', lambda o: o.exactsum(list(IT), 12)), ('exactsum(5)', lambda o: o.exactsum(list(IT), 5)), ('exactsum(impossible)', lambda o: o.exactsum(list(IT), 4)),
                                               ('dynprog(16)', lambda o: o.dynprog(list(IT), 16)), ('exactsum(bad item)!', lambda o: o.exactsum([(0, 3), 5, (1, 2)], 5))], None)
+    # ---- families: objects of one class with *different* configurations alive together (call = use of one member) ----
+    KZ = K16[:8] + bytes(8)
+    K['AES-family (integer-equal keys)'] = (lambda: [AES(KZ), AES(KZ + bytes(8)), AES(KZ + bytes(16))],
+        [('128.enc', lambda o: o[0].enc(B16)), ('192.enc', lambda o: o[1].enc(B16)), ('256.enc', lambda o: o[2].enc(B16)), ('128.dec', lambda o: o[0].dec(B16)), ('256.dec', lambda o: o[2].dec(B16))], None)
+    K['Threefish-family'] = (lambda: [Threefish(K32, IV16), Threefish(K32 + K32, IV16), Threefish(M2[:128], IV16)],
+        [('256.enc', lambda o: o[0].enc(K32)), ('512.enc', lambda o: o[1].enc(M2[:64])), ('1024.enc', lambda o: o[2].enc(M2[:128])),
+         ('256.dec', lambda o: o[0].dec(K32)), ('512.dec', lambda o: o[1].dec(M2[:64])), ('1024.dec', lambda o: o[2].dec(M2[:128]))], None)
+    K['Skein-family (same No)'] = (lambda: [Skein(256, 256), Skein(512, 256), Skein(1024, 256), Skein(512, 256, key=b'k')],
+        [('256.h(M1)', lambda o: o[0](M1)), ('512.h(M1)', lambda o: o[1](M1)), ('1024.h(M1)', lambda o: o[2](M1)), ('512k.h(M1)', lambda o: o[3](M1)), ('512.h(empty)', lambda o: o[1](M0))], None)
+    K['Chacha/Salsa-family'] = (lambda: [Chacha(Bits(K16, bitorder=1), 8), Chacha(Bits(K32, bitorder=1), 12), Salsa20(Bits(K16, bitorder=1)), Chacha(Bits(IV16, bitorder=1), 8)],
+        [('c16r8.enc', lambda o: o[0].enc(V(), M1)), ('c32r12.enc', lambda o: o[1].enc(V(), M1)), ('s16.enc', lambda o: o[2].enc(V(), M1)), ('c16b.enc', lambda o: o[3].enc(V2(), M1)),
+         ('c16r8.enc(M2)', lambda o: o[0].enc(V2(), M2))], None)
+    K['Nilsimsa-family'] = (lambda: [Nilsimsa(53), Nilsimsa(17), Nilsimsa(99)],
+        [('53.h', lambda o: o[0](TEXT)), ('17.h', lambda o: o[1](TEXT)), ('99.h', lambda o: o[2](TEXT)), ('53.h(M1)', lambda o: o[0](M1))], None)
+    K['TLSH-family'] = (lambda: [TLSH(128), TLSH(256, 4, 3), TLSH(48, 8, 1)],
+        [('128.h', lambda o: o[0](TEXT2, True)), ('256.h', lambda o: o[1](TEXT2, True)), ('48.h', lambda o: o[2](TEXT2, True)), ('128.h(short)', lambda o: o[0](M1))], None)
+    K['SHA-family'] = (lambda: [SHA2(256), SHA1(1), SHA2(224), SHA2(512), SHA2(512, 256), MD5()],
+        [('sha256.h', lambda o: o[0](M2)), ('sha1.h', lambda o: o[1](M2)), ('sha224.h', lambda o: o[2](M2)), ('sha512.h', lambda o: o[3](M2)), ('sha512/256.h', lambda o: o[4](M2)), ('md5.h', lambda o: o[5](M2)),
+         ('~sha256.update', lambda o: (o[0].update(bytes(64)), None)[1]), ('~sha1.initstate+update', lambda o: (o[1].initstate(), o[1].update(bytes(64)), None)[2])], None)
+    K['Keccak-family'] = (lambda: [Keccak(b=1600, c=512, len=256), Keccak(b=200, r=40, len=160), SHA3(256), Keccak(b=400, r=144, len=64)],
+        [('1600.h', lambda o: o[0](M1)), ('200.h', lambda o: o[1](M1)), ('sha3.h', lambda o: o[2](M1)), ('400.h', lambda o: o[3](M1)), ('1600.h(r=576)', lambda o: o[0](M1, r=576))], None)
+    K['Blake-family'] = (lambda: [Blake(256), Blake(224), Blake(512), Blake2(256), Blake2(512)],
+        [('b256.h', lambda o: o[0](M2)), ('b224.h', lambda o: o[1](M2)), ('b512.h', lambda o: o[2](M2)), ('b2s.h', lambda o: o[3](M2)), ('b2b.h', lambda o: o[4](M2)), ('b2s.h(outlen=7)', lambda o: o[3](M2, outlen=7))], None)
+    def mk_md6f():
+        hs = [MD6(256, b'', 64), MD6(128, b'key', 0), MD6(512, b'', 1)]
+        for h in hs: h.rounds = 2
+        return hs
+    K['MD6-family'] = (mk_md6f, [('256.h', lambda o: o[0](M2)), ('128k.h', lambda o: o[1](M2)), ('512.h', lambda o: o[2](M3 + M3)), ('256.h(bitlen)', lambda o: o[0](M1, 77))], None)
+    K['HMAC-family (shared hash object)'] = (lambda: (lambda h: [HMAC(h, b'k1'), HMAC(h, M2), HMAC(SHA2(256), b'k1')])(SHA2(256)),
+        [('mac1', lambda o: o[0](M1)), ('mac2', lambda o: o[1](M1)), ('mac3', lambda o: o[2](M1)), ('mac1(empty)', lambda o: o[0](M0))], None)
+    K['mode-family (shared cipher object)'] = (lambda: (lambda c: [ECB(c), CBC(c, IV16), CTR(c, IV16), CTS_ECB(c)])(AES(K16)),
+        [('ecb.enc', lambda o: o[0].enc(M1)), ('cbc.enc', lambda o: o[1].enc(M1)), ('ctr.enc', lambda o: o[2].enc(M1)), ('cts.enc', lambda o: o[3].enc(M1)), ('ecb.dec(enc)', lambda o: o[0].dec(o[0].enc(M2))),
+         ('cbc.enc(int)!', lambda o: o[1].enc(5))], None)
     return K
 
 _K = [None]
@@ -151,12 +184,16 @@ def kind_names():
     return ['SHA1', 'SHA0', 'SHA2-256', 'SHA2-512/224', 'MD4', 'MD5', 'SHA3-256', 'Keccak', 'Keccak-200', 'MD6', 'Blake256', 'Blake512', 'Blake2b', 'Blake2s',
             'Skein256', 'Skein512-mac-tree', 'HMAC-SHA256', 'HMAC-MD5-longkey', 'TLSH128', 'TLSH48-3', 'Nilsimsa', 'AES128', 'AES256', 'DES', 'TDEA', 'Serpent',
             'Threefish256', 'ECB-AES', 'CBC-AES', 'CBC-DES-X923', 'ECB-TDEA', 'ECB-AES-nopadding', 'CTR-AES', 'CTS_ECB-AES', 'CTS_CBC-DES', 'Salsa20',
-            'Chacha-128-12', 'crc (functions)', 'knapsack (functions)']
+            'Chacha-128-12', 'crc (functions)', 'knapsack (functions)', 'AES-family (integer-equal keys)', 'Threefish-family', 'Skein-family (same No)',
+            'Chacha/Salsa-family', 'Nilsimsa-family', 'TLSH-family', 'SHA-family', 'Keccak-family', 'Blake-family', 'MD6-family', 'HMAC-family (shared hash object)',
+            'mode-family (shared cipher object)']
 
 ALPHA = {'SHA1': 7, 'SHA0': 4, 'SHA2-256': 7, 'SHA2-512/224': 7, 'MD4': 7, 'MD5': 7, 'SHA3-256': 4, 'Keccak': 8, 'Keccak-200': 4, 'MD6': 5, 'Blake256': 7, 'Blake512': 5,
          'Blake2b': 9, 'Blake2s': 9, 'Skein256': 5, 'Skein512-mac-tree': 4, 'HMAC-SHA256': 4, 'HMAC-MD5-longkey': 3, 'TLSH128': 7, 'TLSH48-3': 5, 'Nilsimsa': 6,
          'AES128': 5, 'AES256': 3, 'DES': 5, 'TDEA': 4, 'Serpent': 4, 'Threefish256': 5, 'ECB-AES': 7, 'CBC-AES': 7, 'CBC-DES-X923': 7, 'ECB-TDEA': 7,
-         'ECB-AES-nopadding': 4, 'CTR-AES': 5, 'CTS_ECB-AES': 5, 'CTS_CBC-DES': 4, 'Salsa20': 7, 'Chacha-128-12': 5, 'crc (functions)': 6, 'knapsack (functions)': 5}
+         'ECB-AES-nopadding': 4, 'CTR-AES': 5, 'CTS_ECB-AES': 5, 'CTS_CBC-DES': 4, 'Salsa20': 7, 'Chacha-128-12': 5, 'crc (functions)': 6, 'knapsack (functions)': 5, 'AES-family (integer-equal keys)': 5, 'Threefish-family': 6, 'Skein-family (same No)': 5,
+         'Chacha/Salsa-family': 5, 'Nilsimsa-family': 4, 'TLSH-family': 4, 'SHA-family': 8, 'Keccak-family': 5, 'Blake-family': 6, 'MD6-family': 4,
+         'HMAC-family (shared hash object)': 4, 'mode-family (shared cipher object)': 6}
 
 def selftest():
     ks = K()
@@ -184,12 +221,54 @@ def cases(tier, rng):
 
 _fresh = {}
 def fresh(kind, ci):
-    """result of alphabet call ci on a freshly constructed object (cached per process: the oracle)"""
+    """the oracle: result of alphabet call ci on a freshly constructed object *in a pristine process* (computed by prepare()
+    before the shards start, so that state poisoned inside a worker cannot also poison the expected value)"""
     key = (kind, ci)
+    if not _fresh and os.environ.get('VMON_PREP') and os.path.exists(os.environ['VMON_PREP']):
+        for k2, v in json.load(open(os.environ['VMON_PREP'])).items():
+            kk, cc = k2.rsplit('#', 1)
+            _fresh[(kk, int(cc))] = decode(v)
     if key not in _fresh:
-        new, calls, _ = K()[kind]
-        _fresh[key] = norm(call(lambda: calls[ci][1](new())))
+        _fresh[key] = decode(pristine(kind, ci))
     return _fresh[key]
+
+def encode(x):
+    if isinstance(x, (bytes, bytearray)): return {'b': bytes(x).hex()}
+    if isinstance(x, Exc): return {'e': x.name}
+    if isinstance(x, (tuple, list)): return {'l': [encode(y) for y in x]}
+    if isinstance(x, (int, str, bool, float)) or x is None: return x
+    return {'r': repr(x)[:80]}
+
+def decode(x):
+    if isinstance(x, dict):
+        if 'b' in x: return bytes.fromhex(x['b'])
+        if 'e' in x: return Exc.named(x['e'])
+        if 'l' in x: return tuple(decode(y) for y in x['l'])
+        return x['r']
+    return x
+
+def pristine(kind, ci):
+    """run one alphabet call on a fresh object in a brand-new interpreter"""
+    import subprocess
+    r = subprocess.run([sys.executable, '-B', '-m', 'vmon.props.c10', '--fresh', kind, str(ci)], capture_output=True, text=True, timeout=600)
+    return json.loads(r.stdout.strip().splitlines()[-1])
+
+def prepare(tmp, env, py, here):
+    """called once by the parent before the shards start: every (kind, call) evaluated in its own pristine process"""
+    import subprocess
+    from concurrent.futures import ThreadPoolExecutor
+    jobs = [(k, c) for k in kind_names() for c in range(ALPHA[k])]
+    def one(j):
+        r = subprocess.run([py, '-B', '-m', 'vmon.props.c10', '--fresh', j[0], str(j[1])], capture_output=True, text=True, timeout=900, env=env, cwd=here)
+        try:
+            return '%s#%d' % j, json.loads(r.stdout.strip().splitlines()[-1])
+        except Exception:
+            return '%s#%d' % j, {'e': 'PristineProcessFailed'}
+    with ThreadPoolExecutor(16) as ex:
+        res = dict(ex.map(one, jobs))
+    path = os.path.join(tmp, 'c10-fresh.json')
+    json.dump(res, open(path, 'w'))
+    return path
 
 def judged(label):
     """calls labelled '~' are explicit streaming calls (history-dependent by contract): they only perturb the object"""
@@ -282,3 +361,10 @@ def run(case, ctx, rng):
 
 def classify(case, fail):
     return None
+
+
+if __name__ == '__main__':
+    if len(sys.argv) >= 4 and sys.argv[1] == '--fresh':
+        kind, ci = sys.argv[2], int(sys.argv[3])
+        new, calls, _ = K()[kind]
+        print(json.dumps(encode(norm(call(lambda: calls[ci][1](new()))))))
